@@ -100,7 +100,6 @@ package v2
 
 //@ func (*protocol).handleTransactionListQuery
 //@   prop C15 C19
-//@   loop 1 invariant true
 //@   call (messageSender).sendTransactionList #1 requires [list-built-by-the-payload-filtering-collector]
 //@        isNilIface(ret(call (*protocol).collectTransactionList #1).1) && arg(3) == ret(call (*protocol).collectTransactionList #1).0 && arg(1) == connection
 
@@ -122,7 +121,6 @@ package v2
 //@   requires envelope != nil && envelope.TransactionListQuery != nil
 //@   requires typeOf(other) == *Envelope_TransactionList ==> other.(*Envelope_TransactionList) != nil
 //@   loop 1 invariant refs != nil
-//@   loop 2 invariant true
 //@   ensures [other-message-types-are-refused] typeOf(other) != *Envelope_TransactionList ==> result == errIncorrectEnvelopeType
 
 //@ func (*Envelope_TransactionRangeQuery).checkResponse
@@ -130,7 +128,6 @@ package v2
 //@   safety
 //@   requires envelope != nil && envelope.TransactionRangeQuery != nil
 //@   requires typeOf(other) == *Envelope_TransactionList ==> other.(*Envelope_TransactionList) != nil
-//@   loop 1 invariant true
 //@   ensures [other-message-types-are-refused] typeOf(other) != *Envelope_TransactionList ==> result == errIncorrectEnvelopeType
 
 //@ func (*Envelope_State).checkResponse
